@@ -143,6 +143,14 @@ impl Wdb2Header {
         reader.read_exact(&mut buf)?;
         let build = u32::from_le_bytes(buf);
 
+        // Perform the same basic validation as for WDBC
+        if record_count > 0 && (record_size == 0 || field_count == 0) {
+            return Err(Error::InvalidHeader(
+                "Record size and field count cannot be 0 if record count is greater than 0"
+                    .to_string(),
+            ));
+        }
+
         // Read timestamp (present in all WDB2 files)
         reader.read_exact(&mut buf)?;
         let timestamp = u32::from_le_bytes(buf);
@@ -167,7 +175,13 @@ impl Wdb2Header {
 
                 // Calculate index array size to skip
                 let index_array_size = if max_index > 0 {
-                    let diff = (max_index - min_index + 1) as u64;
+                    let diff = i64::from(max_index) - i64::from(min_index) + 1;
+                    if diff < 0 {
+                        return Err(Error::InvalidHeader(format!(
+                            "Index range {min_index}..{max_index} is empty"
+                        )));
+                    }
+                    let diff = diff as u64;
                     // Index array: diff * 4 bytes (u32 per entry)
                     // String length array: diff * 2 bytes (u16 per entry)
                     diff * 4 + diff * 2
@@ -310,6 +324,14 @@ impl Wdb5Header {
 
         reader.read_exact(&mut buf4)?;
         let string_block_size = u32::from_le_bytes(buf4);
+
+        // Perform the same basic validation as for WDBC
+        if record_count > 0 && (record_size == 0 || field_count == 0) {
+            return Err(Error::InvalidHeader(
+                "Record size and field count cannot be 0 if record count is greater than 0"
+                    .to_string(),
+            ));
+        }
 
         reader.read_exact(&mut buf4)?;
         let table_hash = u32::from_le_bytes(buf4);
